@@ -447,12 +447,16 @@ func (gb *gcpBalancer) leastBusyReadyRef() *subConnRef {
 }
 
 func (gb *gcpBalancer) getSubConnRoundRobin(ctx context.Context) *subConnRef {
-	if len(gb.scRefList) == 0 {
+	gb.mu.RLock()
+	n := len(gb.scRefList)
+	gb.mu.RUnlock()
+	if n == 0 {
 		gb.newSubConn()
 	}
-	scRef := gb.scRefList[atomic.AddUint32(&gb.rrRefId, 1)%uint32(len(gb.scRefList))]
 
 	gb.mu.RLock()
+	// scRefList is appended to under gb.mu.
+	scRef := gb.scRefList[atomic.AddUint32(&gb.rrRefId, 1)%uint32(len(gb.scRefList))]
 	if state := gb.scStates[scRef.subConn]; state == connectivity.Ready {
 		gb.mu.RUnlock()
 		return scRef
